@@ -301,3 +301,96 @@ def param_inplace(cg: CallGraph, f: FuncInfo, params, depth=4, _seen=None):
             if names:
                 out.extend(param_inplace(cg, g, names, depth - 1, _seen))
     return out
+
+
+# ---------------------------------------------------------------------------
+# local-variable inlining: rules compare *provenance*, never local names
+# ---------------------------------------------------------------------------
+
+
+class Locals:
+    """Single-definition locals of a function.  ``expand(expr)`` substitutes
+    every such local by its defining expression (recursively), so the resulting
+    text mentions only parameters, attributes, calls and literals: it does not
+    change when locals are renamed, split or merged."""
+
+    def __init__(self, fnode):
+        import copy
+
+        self.fnode = fnode
+        a = fnode.args
+        self.params = {x.arg for x in a.posonlyargs + a.args + a.kwonlyargs}
+        if a.vararg:
+            self.params.add(a.vararg.arg)
+        if a.kwarg:
+            self.params.add(a.kwarg.arg)
+        stores = {}
+        for n in ast.walk(fnode):
+            if isinstance(n, ast.Name) and isinstance(n.ctx, ast.Store):
+                stores[n.id] = stores.get(n.id, 0) + 1
+        aug = {n.target.id for n in ast.walk(fnode) if isinstance(n, ast.AugAssign) and isinstance(n.target, ast.Name)}
+        self.defs = {}
+        self.loopvars = {}
+        for n in ast.walk(fnode):
+            if isinstance(n, ast.Assign) and len(n.targets) == 1:
+                t = n.targets[0]
+                if isinstance(t, ast.Name) and stores.get(t.id) == 1 and t.id not in aug and t.id not in self.params:
+                    self.defs[t.id] = n.value
+                elif isinstance(t, (ast.Tuple, ast.List)):
+                    for i, e in enumerate(t.elts):
+                        if isinstance(e, ast.Name) and stores.get(e.id) == 1 and e.id not in aug and e.id not in self.params:
+                            if isinstance(n.value, (ast.Tuple, ast.List)) and len(n.value.elts) == len(t.elts):
+                                self.defs[e.id] = n.value.elts[i]
+                            else:
+                                self.defs[e.id] = ast.Subscript(value=n.value, slice=ast.Constant(value=i), ctx=ast.Load())
+            elif isinstance(n, ast.AnnAssign) and isinstance(n.target, ast.Name) and n.value is not None and stores.get(n.target.id) == 1:
+                self.defs[n.target.id] = n.value
+            elif isinstance(n, (ast.For, ast.comprehension)):
+                t = n.target
+                elts = t.elts if isinstance(t, (ast.Tuple, ast.List)) else [t]
+                for i, e in enumerate(elts):
+                    if isinstance(e, ast.Name) and stores.get(e.id) == 1:
+                        self.loopvars[e.id] = (n.iter, i if len(elts) > 1 else None)
+
+    def all_defs(self, name):
+        """every expression assigned to a (possibly multiply defined) local"""
+        out = []
+        for n in ast.walk(self.fnode):
+            if isinstance(n, ast.Assign):
+                for t in n.targets:
+                    if isinstance(t, ast.Name) and t.id == name:
+                        out.append(n.value)
+        return out
+
+    def resolve(self, expr, depth=8):
+        """follow a chain of plain names to the defining expression"""
+        while isinstance(expr, ast.Name) and expr.id in self.defs and depth > 0:
+            expr = self.defs[expr.id]
+            depth -= 1
+        return expr
+
+    def expand(self, expr, depth=6):
+        import copy
+
+        defs, loop = self.defs, self.loopvars
+        outer = self
+
+        class T(ast.NodeTransformer):
+            def __init__(self, d):
+                self.d = d
+
+            def visit_Name(self, n):
+                if isinstance(n.ctx, ast.Load) and self.d > 0:
+                    if n.id in defs:
+                        return T(self.d - 1).visit(copy.deepcopy(defs[n.id]))
+                    if n.id in loop:
+                        it, i = loop[n.id]
+                        inner = T(self.d - 1).visit(copy.deepcopy(it))
+                        call = ast.Call(func=ast.Name(id="each", ctx=ast.Load()), args=[inner] + ([ast.Constant(value=i)] if i is not None else []), keywords=[])
+                        return call
+                return n
+
+        return T(depth).visit(copy.deepcopy(expr))
+
+    def text(self, expr, depth=6):
+        return norm_text(ast.fix_missing_locations(self.expand(expr, depth)))
